@@ -39,6 +39,13 @@ func (f *Fault) E() error {
 		return &os.PathError{Op: "simulated", Path: "simulated", Err: syscall.EINTR}
 	case "eio":
 		return &os.PathError{Op: "simulated", Path: "simulated", Err: syscall.EIO}
+	case "temporary":
+		return tempError{}
+	case "unexpected_eof":
+		// what a reader over a source that was cut off reports: an error, not the end of the data
+		return io.ErrUnexpectedEOF
+	case "unexpected_eof_wrapped":
+		return &os.PathError{Op: "simulated", Path: "simulated", Err: io.ErrUnexpectedEOF}
 	}
 	return ErrInjected
 }
@@ -171,7 +178,11 @@ func (p *Plane) hitD(call, detail string) *Fault {
 	g := *f
 	g.Kind = kind
 	g.Call = call
-	p.Fired = append(p.Fired, fmt.Sprintf("%d:%s:%s", pos, call, kind))
+	fk := kind
+	if f.Errno != "" {
+		fk += "/" + f.Errno
+	}
+	p.Fired = append(p.Fired, fmt.Sprintf("%d:%s:%s", pos, call, fk))
 	p.FiredAt = append(p.FiredAt, pos)
 	if p.x != nil {
 		p.x.Fault(call + "/" + kind)
@@ -190,9 +201,17 @@ type SimSigner struct {
 	// Delay is the simulated latency of the signing device (a token, an HSM):
 	// the simulated clock advances by this much while Sign is in progress.
 	Delay time.Duration
-	// FailNext: the device refuses the next request.
-	FailNext bool
+	// FailNext: the device refuses the next FailNext requests; Temporary: with an error that says it is temporary.
+	FailNext  int
+	Temporary bool
 }
+
+// tempError is what a busy token answers: net.Error-like, Temporary() and Timeout() true.
+type tempError struct{}
+
+func (tempError) Error() string   { return "simulated dependency failure (device busy, temporary)" }
+func (tempError) Temporary() bool { return true }
+func (tempError) Timeout() bool   { return true }
 
 func (s *SimSigner) Public() crypto.PublicKey { return s.inner.Public() }
 
@@ -204,8 +223,11 @@ func (s *SimSigner) Sign(rand io.Reader, digest []byte, opts crypto.SignerOpts) 
 	if f := s.p.hit(cSign); f != nil {
 		return nil, f.E()
 	}
-	if s.FailNext {
-		s.FailNext = false
+	if s.FailNext > 0 {
+		s.FailNext--
+		if s.Temporary {
+			return nil, tempError{}
+		}
 		return nil, ErrInjected
 	}
 	if s.Delay > 0 {
